@@ -185,7 +185,9 @@ class Gateway:
         sensor = self.sensors[sensor_id]
 
         if sensor.is_smart_sleep_node:
-            sensor.set_child_desired_state(child_id, value_type, value)
+            sensor.set_child_desired_state(
+                child_id, value_type, value, self.protocol_version
+            )
             return
 
         msg_to_send = self.create_message_to_set_sensor_value(
